@@ -575,3 +575,30 @@ Proof.
   rewrite A1 in Hn. specialize (Hn eq_refl). rewrite Hoo in Hn. destruct Hn as [-> A2].
   exists st1, r1, st2. auto.
 Qed.
+
+(* ------------------------------------------------------------------ well-formed frames reach their command *)
+Fixpoint no_space (s : string) : bool :=
+  match s with
+  | EmptyString => true
+  | String a r => negb (Ascii.eqb a sp) && no_space r
+  end.
+
+Lemma split_once_no_space c : no_space c = true -> split_once sp c = None.
+Proof.
+  induction c as [|a r IH]; cbn [no_space split_once]; [reflexivity|].
+  intros H. apply andb_true_iff in H. destruct H as [H1 H2]. apply negb_true_iff in H1. rewrite H1, (IH H2). reflexivity.
+Qed.
+
+Lemma split_once_frame c p : no_space c = true -> split_once sp (c ++ String sp p) = Some (c, p).
+Proof.
+  induction c as [|a r IH]; cbn [no_space split_once String.append].
+  - intros _. rewrite Ascii.eqb_refl. reflexivity.
+  - intros H. apply andb_true_iff in H. destruct H as [H1 H2]. apply negb_true_iff in H1. rewrite H1, (IH H2). reflexivity.
+Qed.
+
+Lemma frame_command c p : no_space c = true ->
+  command_of (c ++ String sp p) = c /\ params_of (c ++ String sp p) = p.
+Proof. intros H. unfold command_of, params_of, splitn2. rewrite (split_once_frame c p H). split; reflexivity. Qed.
+
+Lemma frame_command_bare c : no_space c = true -> command_of c = c /\ params_of c = "".
+Proof. intros H. unfold command_of, params_of, splitn2. rewrite (split_once_no_space c H). split; reflexivity. Qed.
